@@ -340,6 +340,9 @@ func checkCase(run *runner, c c12Case) string {
 		return checkProg(run, c)
 	case "errpos":
 		return checkErrPos(run, c)
+	case "size":
+		msg, _ := checkSizeCase(run, c.Note, 0)
+		return msg
 	}
 	return "unknown sub-check " + c.Sub
 }
@@ -457,6 +460,51 @@ func TestC12(t *testing.T) {
 		}
 		rec.Sample(map[string]any{"sub": "expr", "minimal": c.Texts[1], "random": c.Texts[len(c.Texts)-1], "expected": res.String()})
 		return checkExpr(run, c)
+	}
+
+	// ================================================================ (0) size sweeps
+	{
+		sidx := 0
+		for ti := range c12Sizes {
+			tpl := &c12Sizes[ti]
+			sweep := c12FlatSweep
+			if tpl.nest {
+				sweep = c12NestSweep
+			}
+			if rec.Thorough() && !tpl.nest {
+				sweep = append(append([]int{}, sweep...), 20000, 65535, 65536, 100000)
+			}
+			// one shard handles a whole template (monotonicity is judged per template)
+			sidx++
+			if !rec.Mine(sidx) {
+				continue
+			}
+			rejectedAt := 0
+			for _, n := range sweep {
+				if n > tpl.max {
+					continue
+				}
+				note := tpl.name + ":" + strconv.Itoa(n)
+				rec.Eval()
+				rec.Class("size:" + map[bool]string{true: "nest", false: "flat"}[tpl.nest])
+				if n >= 100 {
+					rec.NonTrivial("size|" + note)
+				}
+				msg, rejected := checkSizeCase(run, note, rejectedAt)
+				if rejected && rejectedAt == 0 {
+					rejectedAt = n
+				}
+				if msg != "" {
+					src, _, _, _ := c12SizeGen(note)
+					if len(src) > 400 {
+						src = src[:200] + " … " + src[len(src)-200:]
+					}
+					report(c12Case{Sub: "size", Note: note, Show: src}, fmt.Sprintf("size sweep %s: %s", note, msg))
+					break
+				}
+			}
+		}
+		phase("size")
 	}
 
 	// ================================================================ (a) exhaustive flat sequences
